@@ -52,7 +52,7 @@ struct vh_shared {
         volatile uint64_t done_upto;    /* index in this shard's sequence */
         volatile int in_case;
         volatile int fails_in_case;
-        char names[VH_MAXCOUNTERS][40];
+        char names[VH_MAXCOUNTERS][64];
         volatile uint64_t vals[VH_MAXCOUNTERS];
         volatile int ncounters;
         volatile uint64_t nsamples;
